@@ -100,7 +100,7 @@ Theorem C04_oracle_accepts : forall (cf : cfg) (m : mode) (c : cmd),
   exists g l, generate cf m c = Ok g /\ invoke_keys g = Some l /\ optional_ok cf c l = true.
 Proof. exact oracle_accepts. Qed.
 
-(* the three remaining classes: an in-domain witness lying in that class only, on which the faithful
+(* the four recorded classes: an in-domain witness lying in that class only, on which the faithful
    model delivers a wrong key set in both modes *)
 Theorem C04_bare_window_refuted :
   cmd_dom w_window = true /\ only_class 0 cfg_default w_window = true /\
@@ -119,6 +119,14 @@ Theorem C04_underscore_name_refuted :
   option_map kb_of (match generate cfg_default Plain w_underscore with Ok g => invoke_keys g | Panic => None end)
     = Some [(L "__", false); (L "userId", false)].
 Proof. exact refuted_underscore_name. Qed.
+(* a parameter Tauri fills that is bound by the wildcard or a destructuring pattern gets no key *)
+Theorem C04_pattern_refuted :
+  cmd_dom w_pattern = true /\ only_class 3 cfg_default w_pattern = true /\
+  bad cfg_default Plain w_pattern = true /\ bad cfg_default Zod w_pattern = true /\
+  spec_keys cfg_default w_pattern = [(L "point", false); ([], false); (L "speed", false)] /\
+  option_map kb_of (match generate cfg_default Plain w_pattern with Ok g => invoke_keys g | Panic => None end)
+    = Some [(L "speed", false)].
+Proof. exact refuted_pattern. Qed.
 (* repaired (C04-2-ipc-channel): the former witness is outside every class and satisfies the property *)
 Theorem C04_ipc_channel_fixed :
   cmd_dom w_ipc_channel = true /\ kf_any cfg_default w_ipc_channel = false /\
@@ -144,7 +152,8 @@ Definition ex_cmd : cmd := {| c_name := L "stream_items"; c_macro_case := None;
                 mkp "win" (APath [] NWindow (Some [GType]));
                 mkp "req" (APath [STauri; SIpc] NRequest (Some [GLife]));
                 mkp "log_ch" (APath [SIpc] NChannel (Some [GType]));
-                mkp "raw_req" (APath [] NRequest (Some [GLife])) ] |}.
+                mkp "raw_req" (APath [] NRequest (Some [GLife]));
+                {| p_name := L "w"; p_ty := APath [] NState (Some [GLife; GType]); p_pat := PatWild |} ] |}.
 Example C04_ex_premises :
   cmd_dom ex_cmd = true /\ kf_any cfg_default ex_cmd = false /\
   kf_any {| default_case := L "SCREAMING-KEBAB-CASE" |} ex_cmd = false.
@@ -195,5 +204,6 @@ Print Assumptions C04_oracle_accepts.
 Print Assumptions C04_bare_window_refuted.
 Print Assumptions C04_macro_case_refuted.
 Print Assumptions C04_underscore_name_refuted.
+Print Assumptions C04_pattern_refuted.
 Print Assumptions C04_ipc_channel_fixed.
 Print Assumptions C04_short_request_fixed.
